@@ -408,6 +408,13 @@ def run(ctx):
                        f'earlier iteration already gave to another label is taken again, so that '
                        f'label ends below its target count', f'{ra.module.relpath}:{n.lineno}')
     ctx.floor('R20f', 'label-assignment sites', n_sites, 2)
+    # ---- R20i: the cost model the refinement minimises is monotone for FRACTIONAL shares ---
+    # candidates are priced with float-accumulated shares (k/C - eps): "never raises the cost"
+    # needs the NE16 model to be non-decreasing in real-valued channel counts (C16's analysis of
+    # the three NE16 registrations, incl. the tiling lemma on the ragged output tile)
+    from . import c16
+    from ..costlib import cost_specs
+    c16.r16a(ctx, cost_specs(repo), rule='R20i', only=('ne16_latency',))
     ctx.assume('shares are multiples of 1/C represented in float32; argsort returns a permutation')
     ctx.note('not decided: that _reassign_precisions meets every count for every score matrix '
              '(greedy algorithm correctness)')
